@@ -20,7 +20,8 @@ import (
 //   c35j_enc     in  [denom amount sender receiver memo]
 //                out {bz: MarshalPacketData(..V1, EncodingJSON) bytes, gb: GetBytes() bytes, mr: ok|err|panic,
 //                     rt: raw json.Unmarshal of bz, upd: UnmarshalPacketData(bz) outcome}
-//   c35j_dec     in  bz   out {r: ok|nil|err|panic, v: [5 fields] when ok, upd: {r: ok|err|panic, v: [...]}}
+//   c35j_dec     in  bz   out {r: ok|nil|err|panic, v: [5 fields] and vb: ValidateBasic()==nil when ok,
+//                          upd: {r: ok|err|panic, v: [...]}}
 //   c35j_foldtab in  []   out [[r, foldRune(r)] ...] for all non-ASCII runes that fold to ASCII
 //   c35j_utf8    in  s    out {valid: utf8.ValidString(s), san: invalid bytes replaced by U+FFFD}
 
@@ -59,7 +60,10 @@ func c35jRaw(bz []byte) map[string]any {
 	if !ok || d == nil {
 		return map[string]any{"r": "nil"}
 	}
-	return map[string]any{"r": "ok", "v": c35jHexes([5]string{d.Denom, d.Amount, d.Sender, d.Receiver, d.Memo})}
+	// vb: does the decoded value pass the stateless validation UnmarshalPacketData applies next
+	vb := false
+	hx.Catch(func() { vb = d.ValidateBasic() == nil })
+	return map[string]any{"r": "ok", "v": c35jHexes([5]string{d.Denom, d.Amount, d.Sender, d.Receiver, d.Memo}), "vb": vb}
 }
 
 // c35jUpd records the outcome class of the whole UnmarshalPacketData (decoder + ValidateBasic + conversion).
@@ -82,7 +86,9 @@ func c35jEmitDec(o *hx.Out, bz []byte, tag string) {
 	o.Emit("c35j_dec", hx.H(bz), out, tag)
 }
 
-func c35jEmitEnc(o *hx.Out, v c35jVal, tag string) {
+func c35jEmitEnc(o *hx.Out, v c35jVal, tag string) { c35jEmitEnc2(o, v, tag, true) }
+
+func c35jEmitEnc2(o *hx.Out, v c35jVal, tag string, alsoDec bool) {
 	data := v.data()
 	var bz, gb []byte
 	var err error
@@ -98,7 +104,9 @@ func c35jEmitEnc(o *hx.Out, v c35jVal, tag string) {
 	out := map[string]any{"bz": hx.H(bz), "gb": hx.H(gb), "mr": mr, "rt": c35jRaw(bz), "upd": c35jUpd(bz)}
 	o.Emit("c35j_enc", c35jHexes(v), out, tag)
 	// the encoder's output is also a decoder input of its own (model decodes it too)
-	c35jEmitDec(o, bz, "roundtrip:"+tag)
+	if alsoDec {
+		c35jEmitDec(o, bz, "roundtrip:"+tag)
+	}
 }
 
 func c35jSanitize(s string) string {
@@ -385,7 +393,7 @@ func c35jDirected() [][2]string {
 		"\x00", "\x01", "\x1f", "\n", "\t", "\r", "\x7f", "\x80", "\xff", "\xc0\x80", "\xed\xa0\x80", "\xf4\x90\x80\x80", "\xe2\x80", "\xe2\x80\xa8", "\xe2\x80\xa9", "\xf0\x9f\x98\x80", "\xef\xbf\xbd", "a\xffb", "\xc3", "\xc3\xa9\xc3",
 		"<>&", "</script>"} {
 		add("esc", obj("memo", q(e)))
-		add("esc", obj("memo", q("a"+e+"z")))
+		add("esc-embedded", obj("memo", q("a"+e+"z")))
 	}
 	// structure errors around a valid object
 	base := "{" + q("denom") + ":" + q("uatom") + "," + q("amount") + ":" + q("1") + "}"
@@ -443,13 +451,12 @@ func famC35Json(r *hx.Rng, o *hx.Out) {
 		c35jEmitUtf8(o, s, "unicode")
 	}
 	for _, s := range c35jInvalid {
-		c35jEmitUtf8(o, s, "invalid")
 		c35jEmitUtf8(o, "a"+s+"é", "invalid-embedded")
 	}
-	for i := 0; i < hx.N(40, 1500); i++ {
+	for i := 0; i < hx.N(15, 1000); i++ {
 		c35jEmitUtf8(o, c35jStr(r, false), "mixed")
 	}
-	for i := 0; i < hx.N(30, 1500); i++ {
+	for i := 0; i < hx.N(15, 1000); i++ {
 		c35jEmitUtf8(o, string(r.Bytes(1+r.Intn(6))), "random")
 	}
 	// every lead byte with every class of second byte
@@ -497,30 +504,44 @@ func famC35Json(r *hx.Rng, o *hx.Out) {
 		v[4] = "é" + s + " " + s + "z"
 		c35jEmitEnc(o, v, "invalid-utf8-embedded")
 	}
-	for i := 0; i < hx.N(40, 3000); i++ {
-		c35jEmitEnc(o, c35jBase(r), "plausible")
+	for i := 0; i < hx.N(15, 1000); i++ {
+		c35jEmitEnc2(o, c35jBase(r), "plausible", i%3 == 0)
 	}
-	for i := 0; i < hx.N(60, 4000); i++ {
-		c35jEmitEnc(o, c35jVal{c35jStr(r, true), c35jStr(r, true), c35jStr(r, true), c35jStr(r, true), c35jStr(r, true)}, "random-valid-utf8")
+	for i := 0; i < hx.N(30, 2500); i++ {
+		c35jEmitEnc2(o, c35jVal{c35jStr(r, true), c35jStr(r, true), c35jStr(r, true), c35jStr(r, true), c35jStr(r, true)}, "random-valid-utf8", i%3 == 0)
 	}
-	for i := 0; i < hx.N(60, 4000); i++ {
-		c35jEmitEnc(o, c35jVal{c35jStr(r, false), c35jStr(r, false), c35jStr(r, false), c35jStr(r, false), c35jStr(r, false)}, "random-any-bytes")
+	for i := 0; i < hx.N(30, 2500); i++ {
+		c35jEmitEnc2(o, c35jVal{c35jStr(r, false), c35jStr(r, false), c35jStr(r, false), c35jStr(r, false), c35jStr(r, false)}, "random-any-bytes", i%3 == 0)
 	}
 
 	// ---- decoder on directed, mutated and random inputs -----------------------------------------
-	for _, c := range c35jDirected() {
+	for i, c := range c35jDirected() {
+		if hx.Tier() == "quick" && (c[0] == "esc-embedded" || c[0] == "val-unknown") && i%3 != 0 {
+			continue
+		}
 		c35jEmitDec(o, []byte(c[1]), c[0])
 	}
 	// truncation at every position of small encodings
 	truncBases := []c35jVal{{"uatom", "1", "a", "b", ""}, {"a\"b", "é", "<", "\xff", "m\n"}}
 	for _, v := range truncBases {
 		bz := v.data().GetBytes()
-		for i := 0; i < len(bz); i++ {
+		step := hx.N(2, 1)
+		for i := 0; i < len(bz); i += step {
 			c35jEmitDec(o, bz[:i], "truncated")
 		}
 	}
+	// a valid transfer with something before / after the JSON value
+	for i := 0; i < hx.N(6, 300); i++ {
+		bz := c35jBase(r).data().GetBytes()
+		for _, x := range []string{"x", "{}", ",", "]", "}", "\x00", " x", "null", "\n{}", " ", "\n", "\"\"", "0"} {
+			c35jEmitDec(o, append(append([]byte{}, bz...), x...), "valid+trailing")
+		}
+		for _, x := range []string{"x", "{}", ",", "[", "\x00", " ", "\n\t", "\xef\xbb\xbf", "null"} {
+			c35jEmitDec(o, append([]byte(x), bz...), "leading+valid")
+		}
+	}
 	// one byte replaced / inserted / deleted, quotes removed
-	for i := 0; i < hx.N(90, 6000); i++ {
+	for i := 0; i < hx.N(60, 4000); i++ {
 		v := c35jBase(r)
 		if r.Bool() {
 			v[4] = c35jStr(r, true)
@@ -560,15 +581,15 @@ func famC35Json(r *hx.Rng, o *hx.Out) {
 		c35jEmitDec(o, m, tag)
 	}
 	// random valid objects aimed at the struct, and random valid JSON values of any type
-	for i := 0; i < hx.N(120, 8000); i++ {
+	for i := 0; i < hx.N(70, 5000); i++ {
 		c35jEmitDec(o, []byte(c35jGenObject(r)), "gen-object")
 	}
-	for i := 0; i < hx.N(30, 2000); i++ {
+	for i := 0; i < hx.N(20, 1500); i++ {
 		c35jEmitDec(o, []byte(c35jWS(r)+c35jGenValue(r, 3)+c35jWS(r)), "gen-value")
 	}
 	// token soup and random bytes
 	toks := []string{"{", "}", "[", "]", ":", ",", "\"denom\"", "\"memo\"", "\"x\"", "\"", "1", "-", "0.5", "e", "null", "true", "false", " ", "\n", c35jBS, c35jBS + "u00", "\xff", "nul"}
-	for i := 0; i < hx.N(60, 5000); i++ {
+	for i := 0; i < hx.N(40, 3000); i++ {
 		var b strings.Builder
 		n := 1 + r.Intn(8)
 		for j := 0; j < n; j++ {
@@ -576,7 +597,7 @@ func famC35Json(r *hx.Rng, o *hx.Out) {
 		}
 		c35jEmitDec(o, []byte(b.String()), "token-soup")
 	}
-	for i := 0; i < hx.N(30, 3000); i++ {
+	for i := 0; i < hx.N(20, 2000); i++ {
 		c35jEmitDec(o, r.Bytes(r.Intn(24)), "random-bytes")
 	}
 	// deep nesting: top level and under an unknown key (the scanner's limit is 10000)
